@@ -18,6 +18,7 @@ def flow(prefix, profiles, variant, quick, thorough, **kw):
 
 
 C01_PROFILES = ["general", "rowhigh-any", "multirow", "turned", "polarity", "dense", "obstruction", "big"]
+COMB = ["comb"]
 CROWDED = ["crowded"]
 FARAWAY = ["faraway"]
 
@@ -33,6 +34,7 @@ PLANS = {
                         "g++ ASan/UBSan runtimes; library assert()s compiled in (asan, fast builds)"],
         "trusted_base": ["harness/circ.hpp legality oracle", "g++ 12 sanitizer runtimes"],
         "runs": flow("c01", C01_PROFILES, "asan", 4000, 12000) + flow("c01", C01_PROFILES, "fast", 0, 60000)
+                + flow("c01", COMB, "asan", 600, 3000)
                 + flow("c01", CROWDED, "asan", 1500, 6000) + flow("c01", CROWDED, "fast", 0, 40000)
                 + flow("c01", FARAWAY, "asan", 2000, 8000) + flow("c01", FARAWAY, "fast", 0, 40000),
     },
@@ -44,6 +46,7 @@ PLANS = {
                 "DetailedPlacer. Data-structure layer: exhaustive BFS over swap/insert sequences on small DetailedPlacement instances",
         "assumptions": ["legality oracle independent of the library", "tall cells compared with the first callback state and the legalize-only copy"],
         "runs": flow("c02.api", C01_PROFILES, "asan", 1500, 6000) + flow("c02.api", C01_PROFILES, "fast", 0, 10000)
+                + flow("c02.api", COMB, "asan", 300, 1500)
                 + flow("c02.api", CROWDED, "asan", 400, 2000) + flow("c02.api", CROWDED, "fast", 0, 10000)
                 + flow("c02.api", FARAWAY, "asan", 1000, 4000) + flow("c02.api", FARAWAY, "fast", 0, 10000)
                 + [R("h_dp", "asan", "c02.opt", 6000, 30000), R("h_dp", "fast", "c02.opt", 0, 60000), R("h_dp", "asan", "c02.reorder", 4000, 20000),
@@ -71,6 +74,7 @@ PLANS = {
         "assumptions": [],
         "runs": flow("c04", C01_PROFILES, "asan", 2000, 8000) + flow("c04", ["polarity", "multirow", "general"], "fast", 0, 20000)
                 + [R("h_dp", "asan", "c04.opt", 6000, 30000), R("h_dp", "fast", "c04.opt", 0, 60000), R("h_dp", "asan", "c04.reorder", 6000, 30000)]
+                + flow("c04", COMB, "asan", 300, 1500)
                 + flow("c04", CROWDED, "asan", 400, 2000) + flow("c04", CROWDED, "fast", 0, 10000)
                 + flow("c04", FARAWAY, "asan", 1000, 4000),
     },
@@ -98,6 +102,7 @@ PLANS = {
                 + flow("c07", ["general", "degenerate", "big", "wide", "dense", "multirow", "obstruction", "paramfuzz"], "ndebug", 200, 3000)
                 + flow("c07", ["floating"], "asan", 1200, 12000) + flow("c07", ["floating"], "ndebug", 600, 6000)
                 + flow("c07", ["blocked"], "asan", 800, 8000) + flow("c07", ["blocked"], "ndebug", 200, 3000)
+                + flow("c07", ["scale"], "asan", 16, 32) + flow("c07", ["scale"], "fast", 16, 64)
                 + [MC("h_flow", "c07.general", 48), MC("h_flow", "c07.degenerate", 48), MC("h_flow", "c07.paramfuzz", 48)],
     },
     "C10": {
@@ -118,6 +123,7 @@ PLANS = {
         "runs": flow("c11.relegalize", ["general", "rowhigh", "obstruction", "polarity", "dense"], "asan", 3000, 10000)
                 + [R("h_flow", "asan", "c11.constructed", 10000, 40000)]
                 + flow("c11.relegalize", CROWDED, "asan", 600, 3000) + flow("c11.relegalize", ["big20"], "asan", 2000, 8000)
+                + flow("c11.relegalize", ["comb"], "asan", 600, 3000)
                 + flow("c11.relegalize", ["general", "rowhigh", "obstruction", "polarity", "dense"], "fast", 0, 20000)
                 + [R("h_flow", "fast", "c11.constructed", 0, 60000)],
     },
@@ -244,7 +250,8 @@ PLANS = {
                  R("h_invalid", "asan", "c19.params.combo", 600, 6000), R("h_invalid", "ndebug", "c19.params.combo", 300, 3000),
                  R("h_invalid", "asan", "c19.params.random", 6000, 60000), R("h_invalid", "ndebug", "c19.params.random", 3000, 30000),
                  R("h_invalid", "asan", "c19.setters", 360, 3600), R("h_invalid", "ndebug", "c19.setters", 360, 3600),
-                 R("h_invalid", "asan", "c19.nets", 960, 9600), R("h_invalid", "ndebug", "c19.nets", 960, 9600)],
+                 R("h_invalid", "asan", "c19.nets", 960, 9600), R("h_invalid", "ndebug", "c19.nets", 960, 9600),
+                 R("h_invalid", "asan", "c19.nets.structure", 20000, 200000), R("h_invalid", "ndebug", "c19.nets.structure", 20000, 200000)],
     },
     "C20": {
         "level": "exploration",
